@@ -29,6 +29,37 @@
                             the with-statement
    The i-th record of a log (from 0) is the (i+1)-th wait.
 
+   Two threads (the loop thread inside wait(), another thread shutting it down):
+     WaitBegin / WaitEnd    the two halves of wait() around its HAL call:
+                            `handle = self._notifier; if handle is None: return;
+                            <enter hal.waitForNotifierAlarm(handle)>` and
+                            `<the HAL call returns>; self._expiry_time +=
+                            self.delay_period; self._update_alarm(handle)`
+     Other o                a whole operation o (Body: time passes; Free, Exit,
+                            Enter, Wait) by the thread that is not inside wait()
+     cinit d t              the state: object d, clock t, no wait() in progress
+     crun s h               the state after the history h (a list of the above)
+     c_obj, c_now, c_pend,  its object, clock, the wait() in progress (if any),
+     c_outside              and whether h left the model (two wait() at once)
+     clog s h               one triple (t_call, t_left, left_by_exception) per
+                            wait() that was left, whole or in halves
+     crel o                 o is Other Free or Other (Exit _)
+     seq_cops ops           the sequential use ops as a history: every Wait
+                            becomes WaitBegin; WaitEnd with nothing in between
+     lin h                  the sequential use a history amounts to when nobody
+                            releases: every WaitEnd becomes a Wait at that point
+     cwf false h            h is well bracketed (halves alternate, no second
+                            wait() while one is in progress, none left open)
+     cquiet o               o is Other (Body _) or Other Enter
+     cinstant o             o is Other Free, Other Enter or Other (Exit _)
+     cbodies h              the sum of the bodies of h
+   The HAL call of a wait() in progress returns, when its second half runs at
+   clock c', at max c' alarm -- or at c' when the notifier has been stopped
+   meanwhile; updateNotifierAlarm on a cleaned handle does nothing; a None
+   handle makes the binding raise TypeError ([wait_end d false _] is left by an
+   exception).  Assumptions about the simulated HAL like [hal_wait], validated
+   by the correspondence with a real second thread.
+
    The HAL notifier is the function [hal_wait]: a wait issued at t_call with
    alarm a returns at max t_call a.  That is an assumption about the
    (simulated) HAL, validated on every run by the correspondence
@@ -261,6 +292,94 @@ Proof.
 Qed.
 
 (* ------------------------------------------------------------------ *)
+(* Release while a wait() is in progress (two threads).                *)
+
+(* The two-thread model extends the sequential one: a sequential use, seen as
+   a history in which each wait() runs its two halves with nothing in between,
+   ends in the same object at the same time, with the same log and no
+   exception -- so every theorem above speaks about these histories. *)
+Theorem C16_two_threads_extend_sequential : forall p t0 ops,
+  let s0 := cinit (create p t0) t0 in
+  crun s0 (seq_cops ops) =
+    mkC (fst (final (create p t0, t0) ops)) (snd (final (create p t0, t0) ops)) None false /\
+  clog s0 (seq_cops ops) =
+    map (fun r : Z * Z => (fst r, snd r, false)) (wait_log (create p t0, t0) ops).
+Proof.
+  exact (fun p t0 ops => conc_extends_seq ops (cinit (create p t0) t0) eq_refl (create_rel_inv p t0)).
+Qed.
+
+(* In ANY history of the two threads -- releases anywhere, also between the
+   halves of a wait(), repeated, well bracketed or not -- no wait() is ever left
+   by an exception. *)
+Theorem C16_wait_never_raises : forall p t0 h c t e,
+  In (c, t, e) (clog (cinit (create p t0) t0) h) -> e = false.
+Proof. exact conc_never_raises. Qed.
+
+(* In ANY such history the handle is released exactly once if some thread
+   releases at all (never a second time, also not by the second half of a wait()
+   that was in progress), never otherwise; the object is live exactly until
+   then; once released the HAL holds no alarm (the interrupted wait() does not
+   re-arm the dead handle). *)
+Theorem C16_two_threads_released_once : forall p t0 h,
+  let d := c_obj (crun (cinit (create p t0) t0) h) in
+  released d = (if existsb crel h then 1 else 0)%nat /\
+  live d = negb (existsb crel h) /\
+  (existsb crel h = true -> alarm d = None).
+Proof. exact conc_released_once. Qed.
+
+(* THE SHUTDOWN.  After ANY history [pre] that leaves the object live and no
+   wait() in progress, the loop thread calls wait() at clock c (however far
+   ahead its grid point is); while it is inside the HAL call the other thread
+   lets any time pass ([mid]: bodies, __enter__), then releases the object
+   ([rel]: free(), __del__, __exit__ with or without an exception), possibly
+   several times ([zs]); then the HAL call returns.  Then:
+   (1) that wait() is left at the instant of the release, c + the time that
+       passed -- not at its grid point --, by returning, not by an exception;
+   (2) the clock is that instant;  (3) the object has dropped the handle, the
+       HAL holds no alarm, the handle has been released exactly once;
+   (4) no wait() is in progress, the history has not left the model;
+   (5) whatever follows ([post], by both threads): every wait() is left at the
+       instant it is called, without exception;  (6) and it stays released,
+       exactly once, without alarm. *)
+Theorem C16_release_during_wait : forall p t0 pre mid rel zs post,
+  let s0 := cinit (create p t0) t0 in
+  let s1 := crun s0 pre in
+  let h := pre ++ [WaitBegin] ++ mid ++ [Other rel] ++ zs ++ [WaitEnd] in
+  let s := crun s0 h in
+  c_pend s1 = None -> live (c_obj s1) = true ->
+  forallb cquiet mid = true -> is_free rel = true -> forallb cinstant zs = true ->
+  clog s0 h = clog s0 pre ++ [(c_now s1, c_now s1 + cbodies mid, false)] /\
+  c_now s = c_now s1 + cbodies mid /\
+  (live (c_obj s) = false /\ alarm (c_obj s) = None /\ released (c_obj s) = 1%nat) /\
+  c_pend s = None /\ c_outside s = c_outside s1 /\
+  (forall c t e, In (c, t, e) (clog s post) -> t = c /\ e = false) /\
+  (live (c_obj (crun s post)) = false /\ alarm (c_obj (crun s post)) = None /\
+   released (c_obj (crun s post)) = 1%nat).
+Proof. exact interrupted_wait. Qed.
+
+(* While nobody releases, what the other thread does during a wait() does not
+   disturb the grid: in ANY well-bracketed release-free history the (i+1)-th
+   wait() is left, without exception, at max(c', t0 + (i+1)*p), c' being the
+   instant at which its second half runs (= the call time of the (i+1)-th wait
+   of the sequential use [lin h]): never before the grid point ... *)
+Theorem C16_two_threads_on_grid : forall p t0 h i c t e,
+  cwf false h = true -> existsb crel h = false ->
+  nth_error (clog (cinit (create p t0) t0) h) i = Some (c, t, e) ->
+  e = false /\ grid t0 p (S i) <= t /\
+  exists c', nth_error (wait_log (create p t0, t0) (lin h)) i = Some (c', t) /\
+             t = Z.max c' (grid t0 p (S i)).
+Proof. exact conc_any_use_on_grid. Qed.
+
+(* ... and afterwards the alarm is the grid point after the last wait(). *)
+Theorem C16_two_threads_expiry : forall p t0 h,
+  cwf false h = true -> existsb crel h = false ->
+  let s := crun (cinit (create p t0) t0) h in
+  expiry (c_obj s) = grid t0 p (S (length (clog (cinit (create p t0) t0) h))) /\
+  alarm (c_obj s) = Some (expiry (c_obj s)) /\ live (c_obj s) = true /\
+  period (c_obj s) = p /\ released (c_obj s) = 0%nat.
+Proof. exact conc_any_use_expiry. Qed.
+
+(* ------------------------------------------------------------------ *)
 (* Non-vacuity. *)
 
 (* period 20 ms, built at t0 = 0.5 s; bodies 5 ms, 50 ms (overrun), 1 ms,
@@ -338,6 +457,48 @@ Proof. vm_compute. repeat split; try reflexivity; intro; discriminate. Qed.
 Example C16_nv_rejected : create_opt (999 # 1000000) 0 = None.
 Proof. reflexivity. Qed.
 
+(* period 20 ms, built at t0 = 0.5 s.  One iteration on the grid; the second
+   wait() is called at 523 ms (grid point 540 ms); 4 ms later, while it is
+   blocked, the other thread calls free(): the wait() is left at 527 ms, not at
+   540 ms, by returning; later waits (in halves, whole) return at once; the
+   with-block's __exit__ afterwards releases nothing more.  The hypotheses of
+   C16_release_during_wait hold (pre, mid = 4 ms, rel = zs = free()). *)
+Example C16_nv_release_during_wait :
+  let s0 := cinit (create 20000 500000) 500000 in
+  let pre := [Other (Body 5000); WaitBegin; WaitEnd; Other (Body 3000)] in
+  let h := pre ++ [WaitBegin] ++ [Other (Body 4000)] ++ [Other Free] ++ [Other Free] ++ [WaitEnd] in
+  let post := [Other (Body 100); WaitBegin; Other (Body 50); WaitEnd; Other Wait; Other (Exit None)] in
+  c_pend (crun s0 pre) = None /\ live (c_obj (crun s0 pre)) = true /\
+  clog s0 (h ++ post) = [(505000, 520000, false); (523000, 527000, false);
+                         (527100, 527100, false); (527150, 527150, false)] /\
+  csnaps s0 (h ++ post) = [(520000, Some 540000, 0%nat); (527000, None, 1%nat); (527000, None, 1%nat);
+                           (527000, None, 1%nat); (527150, None, 1%nat); (527150, None, 1%nat);
+                           (527150, None, 1%nat)] /\
+  c_outside (crun s0 (h ++ post)) = false.
+Proof. vm_compute. repeat split; reflexivity. Qed.
+
+(* "without exception" is not vacuous: the second half of wait() IS left by an
+   exception when it is given None as the handle -- which is what re-reading
+   self._notifier after the release yields, instead of the handle the first half
+   had read *)
+Example C16_nv_none_handle_raises :
+  let d := free (create 20000 500000) in
+  snd (wait_end d (live d) 527000) = true /\ snd (wait_end d true 527000) = false.
+Proof. vm_compute. split; reflexivity. Qed.
+
+(* no release: while the loop thread is inside its second wait() the other
+   thread spends 4 ms and enters a with-block on the object; the wait() is left
+   on its grid point 540 ms and the next alarm is 560 ms *)
+Example C16_nv_two_threads_on_grid :
+  let s0 := cinit (create 20000 500000) 500000 in
+  let h := [Other (Body 5000); WaitBegin; WaitEnd; Other (Body 3000); WaitBegin; Other (Body 4000);
+            Other Enter; WaitEnd; Other (Body 30000); WaitBegin; Other (Body 1000); WaitEnd] in
+  cwf false h = true /\ existsb crel h = false /\
+  clog s0 h = [(505000, 520000, false); (523000, 540000, false); (570000, 571000, false)] /\
+  lin h = [Body 5000; Wait; Body 3000; Body 4000; Enter; Wait; Body 30000; Body 1000; Wait] /\
+  alarm (c_obj (crun s0 h)) = Some 580000.
+Proof. vm_compute. repeat split; reflexivity. Qed.
+
 Print Assumptions C16_expiry_on_grid.
 Print Assumptions C16_call_times.
 Print Assumptions C16_never_early.
@@ -356,3 +517,9 @@ Print Assumptions C16_enter_transparent.
 Print Assumptions C16_any_use_on_grid.
 Print Assumptions C16_any_use_expiry.
 Print Assumptions C16_entered_late.
+Print Assumptions C16_two_threads_extend_sequential.
+Print Assumptions C16_wait_never_raises.
+Print Assumptions C16_two_threads_released_once.
+Print Assumptions C16_release_during_wait.
+Print Assumptions C16_two_threads_on_grid.
+Print Assumptions C16_two_threads_expiry.
